@@ -144,6 +144,18 @@ package document
 //@ ensures err == nil ==> rowPropsOwn(result0)
 //@ ensures err == nil ==> cellParasOwn(result0)
 //@ ensures err == nil ==> paraRunsOwn(result0)
+// The OUTER table keeps its ownership invariants (so the induction over the editors' contracts goes through AddNestedTable):
+// the call writes the cell's nested-table list and the table header it appends to it, nothing else. The five preservation
+// clauses need no side condition. That the receiver's own header (Rows, Grid, Properties) stays is stated for every
+// receiver that is not itself an element of the very array the call appends to (a table sitting in the spare capacity of
+// its own cell's nested-table list: no table the API builds, opens or copies is - those are separate objects or elements
+// of ANOTHER cell's list; in that case the receiver becomes the new nested table, which satisfies the invariants too).
+//@ ensures err == nil && !old(isElem(t) && arrOf(t) == arr(t.Rows[row].Cells[col].Tables)) ==> len(t.Rows) == old(len(t.Rows)) && t.Rows == old(t.Rows) && t.Grid == old(t.Grid) && t.Properties == old(t.Properties)
+//@ ensures err == nil && old(rowsOwn(t)) ==> rowsOwn(t)
+//@ ensures err == nil && old(cellPropsOwn(t)) ==> cellPropsOwn(t)
+//@ ensures err == nil && old(rowPropsOwn(t)) ==> rowPropsOwn(t)
+//@ ensures err == nil && old(cellParasOwn(t)) ==> cellParasOwn(t)
+//@ ensures err == nil && old(paraRunsOwn(t)) ==> paraRunsOwn(t)
 //@ loop 1
 //@   invariant 0 <= #i && #i <= len(colWidths) && unchangedHeap()
 //@   invariant len(colWidths) == config.Cols && arr(colWidths) >= old(allocBound())
